@@ -27,6 +27,7 @@ type resolvedTarget struct {
 	// whole-heap targets: every heap of a package's types, or one named heap family
 	pkgHeaps string
 	heapName string
+	heapPfx  bool // heapName is a prefix (all component heaps of a field)
 }
 
 // resolveTargets evaluates modifies targets in the scope's state.
@@ -114,6 +115,19 @@ func (fr *Frame) resolveTarget(sc *Scope, mt ModTarget) []resolvedTarget {
 			// pkgheaps(p): any field / element heap of a type declared in package p
 			if a, ok := e.Args[0].(*EIdent); ok {
 				return []resolvedTarget{{text: mt.Text, pkgHeaps: a.Name}}
+			}
+		}
+		if id, ok := e.Fun.(*EIdent); ok && id.Name == "field" && len(e.Args) == 1 {
+			// field(pkg.Type.f) / field(Type.f): that field of every object
+			parts := strings.Split(ExprString(e.Args[0]), ".")
+			if len(parts) >= 2 {
+				fname := parts[len(parts)-1]
+				tname := strings.Join(parts[:len(parts)-1], ".")
+				var out []resolvedTarget
+				// every component heap of that field
+				pfx := "F:" + tname + "." + fname
+				out = append(out, resolvedTarget{text: mt.Text, heapName: pfx, heapPfx: true})
+				return out
 			}
 		}
 		if id, ok := e.Fun.(*EIdent); ok && id.Name == "bytes" && len(e.Args) == 0 {
@@ -206,6 +220,18 @@ func (fr *Frame) havocTargets(st *State, tgs []resolvedTarget) {
 				if heapOfPkg(hn, t.pkgHeaps) {
 					delete(st.heaps, hn)
 				}
+			}
+		case t.heapName != "" && t.heapPfx:
+			// all known component heaps of the field; components not yet seen are registered lazily
+			hit := false
+			for hn, srt := range fr.top.heapSorts {
+				if hn == t.heapName || strings.HasPrefix(hn, t.heapName+".") {
+					st.heaps[hn] = fr.ctx.Fresh("Hh:"+hn, srt)
+					hit = true
+				}
+			}
+			if !hit {
+				fr.top.note("field target " + t.heapName + " names a heap that was never accessed")
 			}
 		case t.heapName != "":
 			srt := fr.top.heapSorts[t.heapName]
@@ -318,7 +344,7 @@ func (fr *Frame) frameObligations(st *State, preHeaps map[string]Term, alloc0 Te
 	for _, hn := range names {
 		skip := false
 		for _, t := range tgs {
-			if (t.pkgHeaps != "" && heapOfPkg(hn, t.pkgHeaps)) || (t.heapName != "" && t.heapName == hn) {
+			if (t.pkgHeaps != "" && heapOfPkg(hn, t.pkgHeaps)) || (t.heapName != "" && (t.heapName == hn || (t.heapPfx && strings.HasPrefix(hn, t.heapName+".")))) {
 				skip = true
 			}
 		}
